@@ -6,7 +6,8 @@ import Driver.Util
 `crash`. `others` = `-` or the comma separated hexadecimal code points of the characters of the
 valid-UTF-8 lines of `out` for which the real `char::is_other()` holds (the compiled model contains
 no Unicode table); `o|e` = the test validates stdout (no inline configuration) or stderr
-(` {output_stream: stderr}`). -/
+(` {output_stream: stderr}`); `c` = the test was read from a Cram document and is written as
+Markdown (`update --convert markdown`: ` {output_stream: combined, keep_crlf: true}`). -/
 open Scrut Scrut.Utf8 Scrut.Esc Scrut.Gen
 namespace Driver.GenerateOps
 
@@ -23,7 +24,8 @@ def opGen (args : List String) : String :=
     match (if f == "m" then some Format.markdown else if f == "c" then some Format.cram else none),
           (if m == "a" then some Mode.ascii else if m == "u" then some Mode.unicode else none),
           code.toInt?, (unhex hcmd).bind utf8Decode, unhex hout, parseOthers others,
-          (if stream == "o" then some ConfigDiff.empty else if stream == "e" then some ConfigDiff.stderr else none) with
+          (if stream == "o" then some ConfigDiff.empty else if stream == "e" then some ConfigDiff.stderr
+           else if stream == "c" then some ConfigDiff.cramDefaults else none) with
     | some fmt, some mode, some c, some cmd, some out, some oth, some cfg =>
       let isOther : Char → Bool := fun ch => oth.contains ch.toNat
       match create fmt mode isOther cfg cmd out c with
